@@ -26,10 +26,10 @@ MachineChecks(e, fam) ==
 IsEv(name) == l <= NEv /\ Tr[l].e = name
 Step(v) == /\ l' = l + 1
            /\ viol' = Cap(viol \o v)
-           /\ Publish(viol', l')
+           /\ PubResult(viol', l')
 Upd(f, k, v) == [x \in (DOMAIN f) \cup {k} |-> IF x = k THEN v ELSE f[x]]
 
-TInit == l = 1 /\ mst = << >> /\ rst = << >> /\ viol = << >> /\ Publish(<< >>, 1)
+TInit == l = 1 /\ mst = << >> /\ rst = << >> /\ viol = << >> /\ PubResult(<< >>, 1)
 
 \* ---------------------------------------------------------------- multi-hash
 TMhInit ==
